@@ -47,19 +47,16 @@ class TLCResult:
         safe with multi-line values)."""
         out = []
         s = self.stdout
-        pat = '<<"%s"' % tag
+        rx = re.compile(r'^<< ?"%s"' % re.escape(tag), re.M)
         i = 0
         while True:
-            j = s.find(pat, i)
-            if j < 0:
+            m = rx.search(s, i)
+            if not m:
                 break
-            if j > 0 and s[j - 1] not in "\n\r":
-                i = j + 1
-                continue
             try:
-                v, e = tlaval.parse_prefix(s, j)
+                v, e = tlaval.parse_prefix(s, m.start())
             except tlaval.TlaParseError as ex:  # pragma: no cover
-                raise MachineryError(f"cannot parse TLC output at {j}: {ex}")
+                raise MachineryError(f"cannot parse TLC output at {m.start()}: {ex}")
             out.append(v)
             i = e
         return out
